@@ -1242,6 +1242,8 @@ class Manifest:
             source = self._manifest[target]
             if os.path.isabs(target):
                 raise experiment.model.errors.FlowIRManifestKeyIsAbsolutePath(target)
+            if os.pardir in target.split(os.sep):
+                raise experiment.model.errors.FlowIRManifestKeyHasParentSegments(target)
             try:
                 _, method = source.rsplit(':', 1)
             except ValueError:
